@@ -4,21 +4,22 @@ From PG Require Import Lib.Strs Model.Wire Proofs.Wire.
 
 (* The full statement
      C04_full : forall mn o a, well_typed mn o a = true -> exists r, call mn o a = Some r /\ Spec o a r
-   is still FALSE: C04_refuted_F04c/d/f/i/k below give five well-typed calls of the faithful model that
-   violate it (each replayed on a generated client, corpus/C04/).  F04a (cookies), F04b (multi-content
-   dispatch), F04e (Enum values),
-   F04g (Content-Type of raw bodies) and F04h (percent-encoding of path values) are FIXED in the code:
-   their guard conjuncts are gone and their witnesses now lie inside C04_partial (C04_fixed_witnesses).
+   is still FALSE: C04_refuted_F04c/d/k below give three well-typed calls of the faithful model that violate
+   it (each replayed on a generated client, corpus/C04/).  F04a (cookies), F04b (multi-content dispatch),
+   F04e (Enum values), F04f (non-str header/cookie values), F04g (Content-Type of raw bodies), F04h
+   (percent-encoding of path values), F04i (boolean path values) and the first form of F04c (a path-level
+   parameter repeated at operation level) are FIXED in the code: their guard conjuncts are gone and their
+   witnesses now lie inside C04_partial (C04_fixed_witnesses, C04_fixed_F04c_override).
 
    C04_partial: for EVERY sanitiser mn, EVERY operation and EVERY argument assignment (any number of
-   parameters in any location and order, any subset of the optional arguments, any of the declared
-   content types): if the call is well typed and meets the six executable guards (F04c, F04d, F04f, F04i,
-   F04k and F04j = media types other than json/multipart/form inside a multi-content operation, an observed
-   defect that is outside the model), the generated method
-   issues exactly one request, and that request has the operation's method, the path a router sees is the
-   template with each variable replaced by the caller's value (segment by segment, after httpx's
-   dot-segment normalisation), exactly the supplied
-   query / header / cookie values under their original names and nothing else, and the body and
+   parameters in any location and order - scalar or array valued, also in the path -, any subset of the
+   optional arguments, any of the declared content types): if the call is well typed and meets the four
+   executable guards (F04c, F04d, F04k and F04j = media types other than json/multipart/form inside a
+   multi-content operation, an observed defect that is outside the model), the generated method issues
+   exactly one request, and that request has the operation's method, the path a router sees is the template
+   with each variable replaced by the caller's value (segment by segment, arrays comma-joined, after httpx's
+   dot-segment normalisation), exactly the supplied query values (one pair per array item), header and
+   cookie values (arrays comma-joined) under their original names and nothing else, and the body and
    Content-Type of the supplied body argument. *)
 Theorem C04_partial : forall mn o a,
   well_typed mn o a = true -> guard mn o a = true ->
@@ -26,10 +27,10 @@ Theorem C04_partial : forall mn o a,
 Proof. exact partial. Qed.
 Print Assumptions C04_partial.
 
-(* a path-level parameter repeated at operation level: duplicate argument, no request at all *)
+(* two parameters whose python names coincide (`user-id` in the query, `user_id` in a header): duplicate argument, no request at all *)
 Theorem C04_refuted_F04c :
   well_typed (mn_of tbl_F04c) op_F04c args_F04c = true
-  /\ guards (mn_of tbl_F04c) op_F04c args_F04c = [true; false; true; true; true; true]
+  /\ guards (mn_of tbl_F04c) op_F04c args_F04c = [true; false; true; true]
   /\ ~ holds (mn_of tbl_F04c) op_F04c args_F04c.
 Proof. exact refuted_F04c. Qed.
 Print Assumptions C04_refuted_F04c.
@@ -37,44 +38,39 @@ Print Assumptions C04_refuted_F04c.
 (* a query parameter named `body` next to a JSON body: the body argument is dropped *)
 Theorem C04_refuted_F04d :
   well_typed (mn_of tbl_F04d) op_F04d args_F04d = true
-  /\ guards (mn_of tbl_F04d) op_F04d args_F04d = [true; true; false; true; true; true]
+  /\ guards (mn_of tbl_F04d) op_F04d args_F04d = [true; true; false; true]
   /\ ~ holds (mn_of tbl_F04d) op_F04d args_F04d.
 Proof. exact refuted_F04d. Qed.
 Print Assumptions C04_refuted_F04d.
 
-(* an integer header argument: TypeError, no request at all *)
-Theorem C04_refuted_F04f :
-  well_typed (mn_of tbl_F04f) op_F04f args_F04f = true
-  /\ guards (mn_of tbl_F04f) op_F04f args_F04f = [true; true; true; false; true; true]
-  /\ ~ holds (mn_of tbl_F04f) op_F04f args_F04f.
-Proof. exact refuted_F04f. Qed.
-Print Assumptions C04_refuted_F04f.
-
-(* a boolean path value is sent as True *)
-Theorem C04_refuted_F04i :
-  well_typed (mn_of tbl_F04i) op_F04i args_F04i = true
-  /\ guards (mn_of tbl_F04i) op_F04i args_F04i = [true; true; true; true; false; true]
-  /\ ~ holds (mn_of tbl_F04i) op_F04i args_F04i.
-Proof. exact refuted_F04i. Qed.
-Print Assumptions C04_refuted_F04i.
-
 (* a path value ".." is a dot segment: GET /f/g/{name} is sent as GET /f *)
 Theorem C04_refuted_F04k :
   well_typed (mn_of tbl_F04k) op_F04k args_F04k = true
-  /\ guards (mn_of tbl_F04k) op_F04k args_F04k = [true; true; true; true; true; false]
+  /\ guards (mn_of tbl_F04k) op_F04k args_F04k = [true; true; true; false]
   /\ ~ holds (mn_of tbl_F04k) op_F04k args_F04k.
 Proof. exact refuted_F04k. Qed.
 Print Assumptions C04_refuted_F04k.
 
-(* regression: the witnesses of the fixed findings F04a, F04b, F04e, F04g, F04h are well typed and meet every guard *)
+(* regression: the witnesses of the fixed findings F04a, F04b, F04e, F04f, F04g, F04h, F04i are well typed and
+   meet every guard *)
 Theorem C04_fixed_witnesses :
   (well_typed (mn_of tbl_F04a) op_F04a args_F04a && guard (mn_of tbl_F04a) op_F04a args_F04a
+   && well_typed (mn_of tbl_F04f) op_F04f args_F04f && guard (mn_of tbl_F04f) op_F04f args_F04f
+   && well_typed (mn_of tbl_F04i) op_F04i args_F04i && guard (mn_of tbl_F04i) op_F04i args_F04i
    && well_typed (mn_of tbl_F04b) op_F04b args_F04b && guard (mn_of tbl_F04b) op_F04b args_F04b
    && well_typed (mn_of tbl_F04e) op_F04e args_F04e && guard (mn_of tbl_F04e) op_F04e args_F04e
    && well_typed (mn_of tbl_F04g) op_F04g args_F04g && guard (mn_of tbl_F04g) op_F04g args_F04g
    && well_typed (mn_of tbl_F04h) op_F04h args_F04h && guard (mn_of tbl_F04h) op_F04h args_F04h) = true.
 Proof. exact fixed_witnesses_in_guard. Qed.
 Print Assumptions C04_fixed_witnesses.
+
+(* regression: the loader's merge (Wire.merge_params) keeps ONE declaration of a path-level parameter that is
+   repeated at operation level, and the merged operation is well typed and inside every guard *)
+Theorem C04_fixed_F04c_override :
+  let o := with_params op_F04c0 (merge_params (firstn 1 (o_params op_F04c0)) (skipn 1 (o_params op_F04c0))) in
+  Nat.eqb (length (o_params o)) 1 && well_typed (mn_of tbl_F04c0) o args_F04c0 && guard (mn_of tbl_F04c0) o args_F04c0 = true.
+Proof. exact fixed_F04c_override. Qed.
+Print Assumptions C04_fixed_F04c_override.
 
 Theorem C04_guard_nonvacuous :
   (well_typed (mn_of tbl_ok) op_ok args_ok = true /\ guard (mn_of tbl_ok) op_ok args_ok = true)
